@@ -18,10 +18,13 @@ class FakeTransport(asyncio.Transport):
         self.protocol = None
         self.paused = False
         self.fail_writes = None    # exception to raise on write
+        self.peer_closed = False   # the peer has closed its socket: shutdown() fails with ENOTCONN
 
     def write(self, data):
         if self.fail_writes is not None:
             raise self.fail_writes
+        if self.eof:
+            raise RuntimeError('Cannot call write() after write_eof()')     # as the selector transport does
         self.written.append(bytes(data))
 
     def is_closing(self):
@@ -34,7 +37,12 @@ class FakeTransport(asyncio.Transport):
         self.closed = True
 
     def write_eof(self):
+        if self.closed or self.eof:
+            return
         self.eof = True
+        if self.peer_closed:
+            # socket.shutdown(SHUT_WR) on a connection the peer has already closed and reset
+            raise OSError(107, 'Transport endpoint is not connected')
 
     def can_write_eof(self):
         return True
